@@ -877,6 +877,18 @@ class Audit:
                 for x in H.walk(body):
                     if x.get("k") in ("if", "let", "bin", "mcall", "call"):
                         parts.append(H.render(x))
+                # ... and of the body with the private helpers of its file written out in place (a guard or an
+                # expression moved into `fn expand_zero_run(parts, compression_index, filled)` is still the function's own)
+                try:
+                    file_ = f["file"] if f else None
+                    inl = H.inline_helpers(self.F, body, max_size=300,
+                                           skip=lambda c: (self.F.fns.get(c) or {}).get("file") != file_ or (self.F.fns.get(c) or {}).get("vis") == "pub")
+                    for form in (inl, H.unlet(inl)):
+                        for x in H.walk(form):
+                            if x.get("k") in ("if", "let", "bin", "mcall", "call"):
+                                parts.append(H.render(x))
+                except Exception:
+                    pass
             self._rtxt[fn] = "\n".join(parts)
         for r in reqs:
             if r.startswith("rx:"):
